@@ -265,6 +265,24 @@ pub fn run(modelrun: &str) {
                     }
                 }
                 "RESYNC" => ("resync".to_string(), Some("RESYNC".to_string())),
+                "ADDTX" => {
+                    // MatchResult built incrementally: new(taker, initial) then add_transaction for each quantity
+                    let init: u64 = t[1].parse().unwrap();
+                    let qs: Vec<u64> = t[2][1..t[2].len() - 1].split(',').filter(|x| !x.is_empty()).map(|x| x.parse().unwrap()).collect();
+                    let r = guarded(&wh, 5000, || {
+                        let taker = oid_of_str("u424242").unwrap();
+                        let mut res = MatchResult::new(taker, init);
+                        let mut out = Vec::new();
+                        for q in &qs {
+                            res.add_transaction(pricelevel::Transaction::new(
+                                Uuid::nil(), taker, oid_of_str("u1").unwrap(), 1, *q, pricelevel::Side::Buy));
+                            out.push(format!("{}/{}", res.remaining_quantity, if res.is_complete { 1 } else { 0 }));
+                        }
+                        format!("steps=[{}] rem={} complete={} exec={} n={}", out.join(","), res.remaining_quantity,
+                                if res.is_complete { 1 } else { 0 }, res.executed_quantity(), res.transactions.as_vec().len())
+                    });
+                    (r.unwrap_or_else(|_| "panic".into()), Some(format!("ADDTX {} {}", t[1], t[2])))
+                }
                 "EXT" => {
                     // a level built from EXTERNAL data whose aggregate fields may lie
                     let (via, cv, ch, cc) = (t[1], t[2], t[3], t[4]);
